@@ -63,6 +63,15 @@ class Bench:
         idx = sorted(rng.sample(range(self.pool.n()), nranks))
         return [self.pool.rep(i, rng) for i in idx]   # list of (text, version)
 
+    def alt(self, entry, rng=None):
+        """another spelling of the same version (a different object of the same pool class), if the pool has one"""
+        rng = rng or self.rng
+        for cl in self.pool.classes:
+            if any(v is entry[1] for _, v in cl):
+                others = [(t, v) for t, v in cl if v is not entry[1]]
+                return rng.choice(others) if others else entry
+        return entry
+
     def con(self, cm, ver):
         if cm == "star":
             return VersionConstraint(comparator="*", version_class=self.cls)
@@ -105,14 +114,30 @@ def parse_cons_answer(ans):
     return ("ok", out)
 
 
-def real_cons(bench, cons, m):
-    """constraint objects for a rank pattern under mapping m (rank -> (text, version))"""
-    return [bench.con(c, None if c == "star" else m[r][1]) for c, r in cons]
+def real_cons(bench, cons, m, respell=None):
+    """constraint objects for a rank pattern under mapping m (rank -> (text, version)); with `respell`
+    (an rng) a rank that occurs again is written in another spelling of the same version when there is one"""
+    if respell is None:
+        return [bench.con(c, None if c == "star" else m[r][1]) for c, r in cons]
+    out, seen = [], set()
+    for c, r in cons:
+        if c == "star":
+            out.append(bench.con(c, None))
+            continue
+        e = m[r]
+        if r in seen:
+            e = bench.alt(e, respell)
+        seen.add(r)
+        out.append(bench.con(c, e[1]))
+    return out
 
 
-def describe(bench, cons, m, probe=None):
-    d = {"scheme": bench.name,
-         "constraints": [TXT[c] + ("" if c == "star" else m[r][0]) for c, r in cons]}
+def describe(bench, cons, m, probe=None, objs=None):
+    if objs is not None:
+        texts = [("*" if o.comparator == "*" else o.comparator + o.version.string) for o in objs]
+    else:
+        texts = [TXT[c] + ("" if c == "star" else m[r][0]) for c, r in cons]
+    d = {"scheme": bench.name, "constraints": texts}
     if probe is not None:
         d["version"] = m[probe][0]
     return d
